@@ -311,6 +311,14 @@ def from_shapes():
         ("same_alias_as_subquery_table", lambda n: ((ir.FromGroup(ir.T(None, "ta", "x", True), (ir.Join("JOIN", ir.Derived(
             ir.Select((ir.Item(ir.Col("x", "c1")), ir.Item(ir.Col("x", "k"))), (ir.FromGroup(ir.T("s1", "tb", "x", True)),)), "d2", True), on("x", "d2")),)),), "x", ())),
     ]
+    # derived tables / CTEs that read no table at all (constants): the statement then has no source, its target is still written
+    const = ir.Select((ir.Item(ir.Lit("1"), "c1"), ir.Item(ir.Lit("2"), "k")), ())
+    shapes += [
+        ("derived_without_table", lambda n: ((ir.FromGroup(ir.Derived(const, "d1", True)),), "d1", ())),
+        ("derived_without_table_joined", lambda n: ((ir.FromGroup(A, (ir.Join("JOIN", ir.Derived(const, "d2", True), on("ta", "d2")),)),), "d2", ())),
+        ("cte_without_table", lambda n: ((ir.FromGroup(ir.CteRef("q1")),), "q1", (("q1", const),))),
+        ("two_derived_without_table", lambda n: ((ir.FromGroup(ir.Derived(const, "d1", True)), ir.FromGroup(ir.Derived(ir.Select((ir.Item(ir.Lit("3"), "k"),), ()), "d2", False))), "d1", ())),
+    ]
     for jk in JOIN_KINDS:
         cond = None if jk == "CROSS JOIN" else on("ta", "tb")
         shapes.append(("join:" + jk, lambda n, jk=jk, cond=cond: ((ir.FromGroup(A, (ir.Join(jk, B, cond),)),), "ta", ())))
